@@ -1346,8 +1346,36 @@ def align_params(data):
     return sorted(done)
 
 
+def library_equivalents(data):
+    """A17: two spellings of one library operation are brought to the one the rule tables were confirmed with:
+    `d.to_uint_floor()` (cosmwasm-std `Decimal`) is `Uint128::new(1).mul_floor(d)` - both are floor(atomics / 10^18)."""
+    n = 0
+    for c in data["functions"]:
+        if c.get("derived"):
+            continue
+        for blk in list(c["blocks"]):
+            t = blk["term"]
+            if t["k"] != "call" or t["callee"].get("key") != "cosmwasm_std::Decimal::to_uint_floor" or len(t["args"]) != 1 or t["target"] is None:
+                continue
+            line = t.get("line", 0)
+            L = len(c["locals"])
+            c["locals"].append({"s": "cosmwasm_std::Uint128", "adt": "cosmwasm_std::Uint128"})
+            nb = max(b["id"] for b in c["blocks"]) + 1
+            c["blocks"].append({"id": nb, "stmts": [], "term": {
+                "k": "call", "callee": {"key": "cosmwasm_std::Uint128::mul_floor", "local": False, "name": "mul_floor", "gargs": ["cosmwasm_std::Decimal", "cosmwasm_std::Uint128"],
+                                        "self_adt": "cosmwasm_std::Uint128", "inputs": [{"s": "cosmwasm_std::Uint128", "adt": "cosmwasm_std::Uint128"}, {"s": "F", "param": True}],
+                                        "output": "cosmwasm_std::Uint128"},
+                "args": [_mv(L), t["args"][0]], "dst": t["dst"], "target": t["target"], "line": line}})
+            blk["term"] = {"k": "call", "callee": {"key": "cosmwasm_std::Uint128::new", "local": False, "name": "new", "gargs": [], "self_adt": "cosmwasm_std::Uint128",
+                                                    "inputs": [{"s": "u128"}], "output": "cosmwasm_std::Uint128"},
+                           "args": [{"k": "const", "ty": "u128", "ck": "int", "int": 1, "text": "1_u128"}], "dst": _pl(L), "target": nb, "line": line}
+            n += 1
+    return n
+
+
 def normalise(data, known_keys):
     """splice new private helpers of data['functions'] into their callers; returns a report dict"""
+    library_equivalents(data)
     renamed = match_renames(data, known_keys)
     aligned = align_params(data)
     inl = Inliner(data["functions"], known_keys)
